@@ -58,6 +58,22 @@ theorem rewind_of_clean {f : AOF E} (h : Clean f) (p : Nat) (hp : p ≤ f.disk.l
     omega
   · unfold view rewind; simp [h1]
 
+/-- a further `rewind` inside a unit in which nothing has been appended yet (the chain rewinds
+block by block): the view is cut again -/
+theorem rewind_of_wf {f : AOF E} (h : WF f) (hb : f.buffer = []) (p : Nat) (hp : p ≤ f.bsp) :
+    WF (f.rewind p) ∧ view (f.rewind p) = (view f).take p ∧ (f.rewind p).buffer = [] := by
+  refine ⟨⟨Nat.le_trans hp h.le, ?_⟩, ?_, hb⟩
+  · intro hb0
+    simp only [rewind] at hb0 ⊢
+    by_cases h0 : f.bak = 0
+    · rw [if_pos h0] at hb0
+      have := h.bak0 h0
+      omega
+    · rw [if_neg h0] at hb0; exact absurd hb0 h0
+  · unfold view rewind
+    simp only [hb, List.append_nil, List.take_take]
+    rw [Nat.min_eq_left hp]
+
 theorem flush_of_wf {f : AOF E} (h : WF f) : f.flush.disk = view f := by
   unfold flush view
   simp only
